@@ -50,8 +50,14 @@ By default, only the workspace-specific cache is cleaned. Use the --expunge flag
 			keep = filepath.Join(workspaceDir, locking.LockFileName)
 		}
 
-		if err := removeAllExcept(dirToClear, keep); err != nil {
-			logger.Fatalf("Clean failed: %v", err)
+		var cleanErr error
+		if expunge {
+			cleanErr = expungeRoot(dirToClear, keep)
+		} else {
+			cleanErr = removeAllExcept(dirToClear, keep)
+		}
+		if cleanErr != nil {
+			logger.Fatalf("Clean failed: %v", cleanErr)
 		}
 
 		if err := os.MkdirAll(dirToClear, 0755); err != nil {
@@ -64,6 +70,43 @@ By default, only the workspace-specific cache is cleaned. Use the --expunge flag
 			logger.Info("Workspace cache cleaned successfully.")
 		}
 	},
+}
+
+// expungeRoot removes everything below the grog root. The root is shared by all
+// workspaces of the user, and each of its workspace directories may contain the lock
+// file of a build that is running in that workspace right now: unlinking it would let
+// a second build of that workspace start next to the first. Lock files of other
+// workspaces are therefore left in place (an unused lock file is harmless, it is not
+// what holds the lock); keep is the lock file of the current workspace, if held.
+func expungeRoot(root string, keep string) error {
+	entries, err := os.ReadDir(root)
+	if err != nil {
+		if os.IsNotExist(err) {
+			return nil
+		}
+		return err
+	}
+	for _, entry := range entries {
+		path := filepath.Join(root, entry.Name())
+		if !entry.IsDir() {
+			if err := os.RemoveAll(path); err != nil {
+				return err
+			}
+			continue
+		}
+		lockFile := filepath.Join(path, locking.LockFileName)
+		if _, statErr := os.Lstat(lockFile); statErr != nil && lockFile != keep {
+			// no lock file in there: nothing to preserve
+			if err := os.RemoveAll(path); err != nil {
+				return err
+			}
+			continue
+		}
+		if err := removeAllExcept(path, lockFile); err != nil {
+			return err
+		}
+	}
+	return nil
 }
 
 // removeAllExcept removes everything below dir apart from the file keep (and the
